@@ -501,6 +501,29 @@ class StmtMixin:
     def ev_ListComp(self, node, fr):
         return self.comprehension_list(node, fr)
 
+    def ev_DictComp(self, node, fr):
+        """{k(x): v(x) for x in xs}: keys = the key list's elements; each stored value is the value computed for SOME source element
+        with that key (which one wins among equal keys is not modelled)"""
+        if self.pure:
+            raise Unsupported("dict comprehension in a spec")
+        st = self.st
+        keys = self.comprehension_list(ast.ListComp(elt=node.key, generators=node.generators), fr)
+        vals = self.comprehension_list(ast.ListComp(elt=node.value, generators=node.generators), fr)
+        out = self.set_from_list(keys, as_dict=True)
+        o = H.rid(out)
+        out = SV(out.term, Ty("dict", (keys.ty.elt() if keys.ty else None, vals.ty.elt() if vals.ty else None)), out.meta)
+        n = H.list_len(st, H.rid(keys))
+        k = z3.Const(st.fresh_name("dk"), Val)
+        src = st.fresh("dcsrc", z3.ArraySort(Val, INT))
+        dval = st.fresh("dcval", z3.ArraySort(Val, Val))
+        st.assume(z3.ForAll([k], z3.Implies(H.dict_has(st, o, k),
+                                            z3.And(0 <= z3.Select(src, k), z3.Select(src, k) < n,
+                                                   H.list_get(st, H.rid(keys), z3.Select(src, k)) == k,
+                                                   z3.Select(dval, k) == H.list_get(st, H.rid(vals), z3.Select(src, k))))))
+        st.write("$dval", o, dval)
+        self.assumptions.add("A-DICTCOMP: dict comprehension values come from some source element with that key (last-wins not modelled)")
+        return out
+
     def ev_SetComp(self, node, fr):
         lst = self.comprehension_list(node, fr)
         return self.set_from_list(lst)
